@@ -3,6 +3,7 @@ package main
 // Loading of the repository packages (go/packages + go/ssa) and the per-function verification driver.
 
 import (
+	"runtime/debug"
 	"fmt"
 	"go/token"
 	"go/types"
@@ -97,7 +98,11 @@ func loadVerifier(repo, extDir string, pkgPaths []string) (*Verifier, error) {
 		if len(fn.Blocks) == 0 {
 			continue
 		}
-		v.fnByKey[fnKey(fn)] = fn
+		// a generic function and its instantiations share one key: the generic body is the one under
+		// contract (deterministically; among instantiations only, the first by name)
+		if prev, ok := v.fnByKey[fnKey(fn)]; !ok || (prev.Origin() != nil && (fn.Origin() == nil || fn.String() < prev.String())) {
+			v.fnByKey[fnKey(fn)] = fn
+		}
 		isInit := fn.Name() == "init" && fn.Parent() == nil
 		for _, b := range fn.Blocks {
 			for _, in := range b.Instrs {
@@ -308,6 +313,9 @@ func (v *Verifier) verifyFunc(fn *ssa.Function, con *Contract) (res *FuncResult)
 	defer func() {
 		if r := recover(); r != nil {
 			res.Err = fmt.Errorf("internal error verifying %s: %v", res.Key, r)
+			if os.Getenv("GOVC_DEBUG") != "" {
+				fmt.Fprintf(os.Stderr, "%s\n", debug.Stack())
+			}
 			if os.Getenv("GOVC_PANIC") != "" {
 				panic(r)
 			}
